@@ -353,7 +353,9 @@ _PenlogRecord: TypeAlias = _PenlogRecordV2
 
 
 def _colorize_msg(data: str, levelno: int) -> tuple[str, int]:
-    if sys.platform == "win32" or not sys.stderr.isatty():
+    # Whether colors are wanted has been decided by the caller (see
+    # resolve_color_mode); the target stream is not always stderr.
+    if sys.platform == "win32":
         return data, 0
 
     out = ""
